@@ -57,6 +57,46 @@ theorem agrees_array (wf : WF d dims bw xs) (elems : List Nat)
           tobytes := htb,
           tofile := by simp [Rep.tofile, Rep.tobytes, htb, Rep.wrote] }
 
+theorem agrees_arrayMem (wf : WF d dims bw xs) (be nd : Bool) (hnb : (nd && be) = false)
+    (h8 : 8 ≤ bw) (hc : be = true → d ≠ .complex64 ∧ d ≠ .complex128) : Agrees d dims bw xs (.arrayMem d dims (memOf (bw / 8) be xs) be nd) := by
+  have F := facts d bw wf.hbw
+  have hm8 : bw % 8 = 0 := by rcases F.range with h | h | h | h | h | h | h <;> omega
+  have hw : 0 < bw / 8 := by omega
+  have hlt : ∀ x ∈ xs, x < 256 ^ (bw / 8) := by
+    intro x hx
+    rw [pow256, show 8 * (bw / 8) = bw by omega]
+    exact wf.range x hx
+  have helems : arrayMemElems d (memOf (bw / 8) be xs) be nd = .ok xs := by
+    have hn8 : ¬ bw < 8 := by omega
+    simp only [arrayMemElems, hnb, Bool.false_eq_true, if_false, wf.hbw, hn8]
+    cases be
+    · have : memOf (bw / 8) false xs = xs.flatMap (leBytes (bw / 8)) := by simp [memOf]
+      simp only [Bool.false_eq_true, if_false, this]
+      exact fromBuffer_flatMap (bw / 8) hw xs hlt
+    · have hnc : ¬ (d = .complex64 ∨ d = .complex128) := by
+        have := hc rfl; intro h; rcases h with h | h
+        · exact this.1 h
+        · exact this.2 h
+      simp only [if_true, hnc, if_false]
+      rw [swapItems_memOf _ hw]
+      exact fromBuffer_flatMap (bw / 8) hw xs hlt
+  have hi : bw = 8 * npItemBytes d := by
+    rcases F.item with h | h | h
+    · omega
+    · omega
+    · exact h
+  have hu : ∀ e ∈ xs, e < 256 ^ npItemBytes d := by
+    intro e he
+    rw [pow256, ← hi]; exact wf.range e he
+  have htb : arrayMemBytes d (memOf (bw / 8) be xs) be nd = .ok (packLE bw xs) := by
+    simp only [arrayMemBytes, helems]
+    exact arrayBytes_ok wf xs hu (obsBits_id bw xs wf.range)
+  exact { dtype := by simp [Rep.dtype, hnb], shape := rfl,
+          nbytes := by simp [Rep.nbytes, Rep.dtype, Rep.shape, hnb, nbytesOf_ok wf.hbw],
+          numpy := ⟨xs, helems, obsBits_id bw xs wf.range⟩,
+          tobytes := htb,
+          tofile := by simp [Rep.tofile, Rep.tobytes, htb, Rep.wrote] }
+
 theorem torchBytes_ok (wf : WF d dims bw xs) (elems : List Nat) (ht : d.torchMapped = true)
     (hu : ∀ e ∈ elems, e < 256 ^ npItemBytes d) (hx : obsBits bw elems = xs) :
     torchBytes d elems = .ok (packLE bw xs) := by
@@ -479,6 +519,7 @@ theorem legal_agrees (wf : WF d dims bw xs) {r : Rep} (h : Legal d dims bw xs r)
   induction h with
   | array elems hu hx => exact agrees_array wf elems hu hx
   | torch elems ht hu hx => exact agrees_torch wf elems ht hu hx
+  | arrayMem be nd hnb h8 hc => exact agrees_arrayMem wf be nd hnb h8 hc
   | torchView pre elems post ht hu hx =>
     rw [torchView_mid wf pre elems post hx]; exact agrees_torch wf elems ht hu hx
   | packed hb => exact agrees_packed wf hb
@@ -496,7 +537,60 @@ theorem legal_agrees (wf : WF d dims bw xs) {r : Rep} (h : Legal d dims bw xs r)
 
 /-! ### destination files -/
 
+theorem splice_nil (img : List Nat) (off : Nat) : splice img off [] = img := by simp [splice]
+
+theorem splice_length (img : List Nat) (off : Nat) (data : List Nat) (h : data ≠ []) :
+    (splice img off data).length = max img.length (off + data.length) := by
+  simp only [splice, h, if_false, List.length_append, List.length_take, List.length_replicate,
+    List.length_drop]
+  omega
+
+theorem drop_append_len (L D : List Nat) (n k : Nat) (h : L.length = n) :
+    (L ++ D).drop (n + k) = D.drop k := by
+  subst h
+  rw [List.drop_append, List.drop_of_length_le (by omega)]
+  simp
+
+/-- two adjacent positioned writes are one positioned write of the concatenation -/
+theorem splice_splice (img : List Nat) (p : Nat) (a b : List Nat) :
+    splice (splice img p a) (p + a.length) b = splice img p (a ++ b) := by
+  by_cases ha : a = []
+  · subst ha; simp [splice_nil]
+  by_cases hb : b = []
+  · subst hb; simp [splice_nil]
+  have hab : a ++ b ≠ [] := by simp [ha]
+  have hA : (img.take p ++ List.replicate (p - img.length) 0).length = p := by
+    simp only [List.length_append, List.length_take, List.length_replicate]; omega
+  have hl := splice_length img p a ha
+  have e1 : ∀ (X : List Nat) (q : Nat), splice X q b
+      = X.take q ++ List.replicate (q - X.length) 0 ++ b ++ X.drop (q + b.length) := by
+    intro X q; rw [splice, if_neg hb]
+  have e2 : splice img p (a ++ b) = img.take p ++ List.replicate (p - img.length) 0 ++ (a ++ b)
+      ++ img.drop (p + (a ++ b).length) := by
+    rw [splice, if_neg hab]
+  rw [e1, e2]
+  have hs : splice img p a
+      = (img.take p ++ List.replicate (p - img.length) 0 ++ a) ++ img.drop (p + a.length) := by
+    simp [splice, ha]
+  have hAa : (img.take p ++ List.replicate (p - img.length) 0 ++ a).length = p + a.length := by
+    rw [List.length_append, hA]
+  have ht : (splice img p a).take (p + a.length)
+      = img.take p ++ List.replicate (p - img.length) 0 ++ a := by
+    rw [hs]; exact List.take_left' hAa
+  have hd : (splice img p a).drop (p + a.length + b.length) = img.drop (p + (a ++ b).length) := by
+    rw [hs, drop_append_len _ _ (p + a.length) b.length hAa, List.drop_drop]
+    congr 1
+    simp only [List.length_append]; omega
+  have hz : p + a.length - (splice img p a).length = 0 := by rw [hl]; omega
+  rw [ht, hd, hz]
+  simp [List.append_assoc]
+
 theorem write_nil (f : Dest) : f.write [] = f := by simp [Dest.write]
+
+theorem write_eq (f : Dest) (data : List Nat) (h : data ≠ []) :
+    f.write data = { f with img := splice f.img (if f.append then f.img.length else f.pos) data,
+                            pos := (if f.append then f.img.length else f.pos) + data.length } := by
+  simp [Dest.write, h, Dest.pwrite, Dest.seek]
 
 theorem write_spec (f : Dest) (data : List Nat) (hne : data ≠ []) :
     (f.write data).pos = (if f.append then f.img.length else f.pos) + data.length ∧
@@ -506,15 +600,12 @@ theorem write_spec (f : Dest) (data : List Nat) (hne : data ≠ []) :
     ((f.write data).img.drop (if f.append then f.img.length else f.pos)).take data.length = data ∧
     (f.write data).img.drop ((if f.append then f.img.length else f.pos) + data.length)
       = f.img.drop ((if f.append then f.img.length else f.pos) + data.length) := by
-  generalize hp : (if f.append then f.img.length else f.pos) = p
-  have hw : f.write data = { f with
-      img := f.img.take p ++ List.replicate (p - f.img.length) 0 ++ data ++ f.img.drop (p + data.length),
-      pos := p + data.length } := by
-    simp [Dest.write, hne, hp]
+  rw [write_eq f data hne]
+  generalize (if f.append then f.img.length else f.pos) = p
   have hA : (f.img.take p ++ List.replicate (p - f.img.length) 0).length = p := by
     simp only [List.length_append, List.length_take, List.length_replicate]; omega
-  rw [hw]
-  refine ⟨rfl, ?_, ?_, ?_⟩
+  simp only [splice, hne, if_false]
+  refine ⟨by simp, ?_, ?_, ?_⟩
   · simp only [List.append_assoc]
     rw [← List.append_assoc (f.img.take p)]
     exact List.take_left' hA
@@ -525,6 +616,118 @@ theorem write_spec (f : Dest) (data : List Nat) (hne : data ≠ []) :
         = p + data.length := by
       rw [List.length_append, hA]
     exact List.drop_left' hB
+
+/-- two consecutive `write`s are one `write` of the concatenation (also in append mode) -/
+theorem write_write (f : Dest) (a b : List Nat) : (f.write a).write b = f.write (a ++ b) := by
+  by_cases ha : a = []
+  · subst ha; simp [write_nil]
+  by_cases hb : b = []
+  · subst hb; simp [write_nil]
+  have hab : a ++ b ≠ [] := by simp [ha]
+  rw [write_eq f a ha, write_eq _ b hb, write_eq f (a ++ b) hab]
+  generalize hp : (if f.append then f.img.length else f.pos) = p
+  have hlen : (splice f.img p a).length = max f.img.length (p + a.length) := splice_length _ _ _ ha
+  have hp' : (if f.append then (splice f.img p a).length else p + a.length) = p + a.length := by
+    cases hfa : f.append
+    · simp
+    · simp only [hfa, if_true] at hp
+      simp only [if_true]; rw [hlen]; omega
+  simp only [hp', splice_splice, List.length_append, Nat.add_assoc]
+
+theorem writeAll_eq (f : Dest) (cs : List (List Nat)) : f.writeAll cs = f.write cs.flatten := by
+  induction cs generalizing f with
+  | nil => simp [Dest.writeAll, write_nil]
+  | cons c cs ih =>
+    have : f.writeAll (c :: cs) = (f.write c).writeAll cs := by simp [Dest.writeAll]
+    rw [this, ih, write_write]; simp
+
+theorem chunk_flatten (n : Nat) (hn : 0 < n) (data : List Nat) : (chunk n data).flatten = data := by
+  induction h : data.length using Nat.strongRecOn generalizing data with
+  | _ k ih =>
+    rw [chunk]
+    by_cases hd : data = []
+    · simp [hd]
+    · have hc : ¬ (n = 0 ∨ data = []) := by simp [hd]; omega
+      rw [dif_neg hc, List.flatten_cons]
+      have hlt : (data.drop n).length < k := by
+        have : data.length ≠ 0 := fun h0 => hd (List.eq_nil_of_length_eq_zero h0)
+        simp only [List.length_drop]; omega
+      rw [ih _ hlt (data.drop n) rfl, List.take_append_drop]
+
+theorem ndTofile_eq_write (f : Dest) (data : List Nat) : f.ndTofile data = f.write data := by
+  by_cases h : data = []
+  · subst h; cases f; simp [Dest.ndTofile, Dest.write, Dest.seek]
+  · simp [Dest.ndTofile, Dest.write, h]
+
+/-- what the kernel-copy rounds have achieved after any number of rounds -/
+theorem copyRounds_inv (f0 : Dest) (d : Nat) (data : List Nat) (rs : List Nat) :
+    ∀ (g : Dest) (c : Nat), c ≤ data.length →
+      g = { f0 with img := splice f0.img d (data.take c) } →
+      ∃ c', c' ≤ data.length ∧
+        copyRounds g d data rs c = ({ f0 with img := splice f0.img d (data.take c') }, c') := by
+  induction rs with
+  | nil => intro g c hc hg; exact ⟨c, hc, by simp [copyRounds, hg]⟩
+  | cons r rs ih =>
+    intro g c hc hg
+    simp only [copyRounds]
+    by_cases h1 : data.length ≤ c
+    · exact ⟨c, hc, by simp [h1, hg]⟩
+    · by_cases h2 : min r (data.length - c) = 0
+      · exact ⟨c, hc, by simp [h1, h2, hg]⟩
+      · simp only [h1, h2, if_false]
+        have hn : c + min r (data.length - c) ≤ data.length := by omega
+        apply ih _ _ hn
+        subst hg
+        have hlen : (data.take c).length = c := by simp; omega
+        simp only [Dest.pwrite]
+        have := splice_splice f0.img d (data.take c) ((data.drop c).take (min r (data.length - c)))
+        rw [hlen] at this
+        rw [this, ← List.take_add]
+
+theorem copyRange_eq_write (f : Dest) (data : List Nat) (rounds : List Nat) :
+    f.copyRange data rounds = f.write data := by
+  unfold Dest.copyRange
+  cases hfa : f.append
+  · -- kernel copy, then the rest through write
+    obtain ⟨c, hc, hcr⟩ := copyRounds_inv f f.pos data rounds f 0 (Nat.zero_le _)
+      (by cases f; simp [splice_nil])
+    simp only [Bool.false_eq_true, if_false, hcr, writeAll_eq,
+      chunk_flatten copyChunkSize (by decide)]
+    by_cases hd : data = []
+    · subst hd
+      have : c = 0 := by simpa using hc
+      subst this
+      cases f; simp [Dest.seek, write_nil, splice_nil]
+    · have hlen : (data.take c).length = c := by simp; omega
+      by_cases hrest : data.drop c = []
+      · -- everything was copied by the kernel
+        have hcl : c = data.length := by
+          have := congrArg List.length hrest
+          simp at this; omega
+        subst hcl
+        rw [hrest, write_nil, write_eq f data hd]
+        simp [Dest.seek, hfa]
+      · rw [write_eq _ _ hrest, write_eq f data hd]
+        simp only [Dest.seek, hfa, Bool.false_eq_true, if_false]
+        have := splice_splice f.img f.pos (data.take c) (data.drop c)
+        rw [hlen, List.take_append_drop] at this
+        rw [this]
+        have : f.pos + c + (data.drop c).length = f.pos + data.length := by
+          simp only [List.length_drop]; omega
+        rw [this]
+  · -- append mode: EBADF, nothing copied, everything through write
+    simp only [if_true, Nat.add_zero, List.drop_zero, writeAll_eq,
+      chunk_flatten copyChunkSize (by decide)]
+    cases f; simp [Dest.seek]
+
+/-- every delivery mechanism performs exactly `write` -/
+theorem deliver_eq_write (f : Dest) (path : Rep.Path) (data : List Nat) :
+    f.deliver path data = f.write data := by
+  cases path
+  · rfl
+  · exact ndTofile_eq_write f data
+  · exact copyRange_eq_write f data _
+  · simp [Dest.deliver, writeAll_eq, chunk_flatten copyChunkSize (by decide)]
 
 /-! ### serialize / deserialize -/
 
@@ -550,6 +753,7 @@ theorem serialize_roundtrip (wf : WF d dims bw xs) {r : Rep} (h : Legal d dims b
   cases h with
   | array elems hu hx => exact hraw _ (Legal.array elems hu hx) rfl
   | torch elems ht hu hx => exact hraw _ (Legal.torch elems ht hu hx) rfl
+  | arrayMem be nd hnb h8 hc => exact hraw _ (Legal.arrayMem be nd hnb h8 hc) rfl
   | torchView pre elems post ht hu hx => exact hraw _ (Legal.torchView pre elems post ht hu hx) rfl
   | packed hb => exact hraw _ (Legal.packed hb) rfl
   | lazy inner hi => exact hraw _ (Legal.lazy inner hi) rfl
